@@ -3,6 +3,7 @@ import NixModel.Lemmas.C16Rec
 import NixModel.Lemmas.C16Bytes
 import NixModel.Lemmas.C16Getitem
 import NixModel.Lemmas.C16Unfit
+import NixModel.Lemmas.C16Fx
 import NixModel.Pure.FrameShape
 import NixModel.Generated.FrameShape
 /-!
@@ -639,6 +640,71 @@ theorem C16_getitem_is_table (f0 : Frame) (hist : List Op) (hc : Created f0) :
   intro name h
   simp [getField, h]
 
+/-- **the roll-back handlers restore the table**: `append_rows`, `write_column` and `append_column` modelled effect
+    by effect (`Pure/FrameFx.lean`: NumPy's conversion, then the storage effects — dataset enlarged / rows rewritten
+    one by one / `data.new` built beside the table — then h5py's refusal of a non-string object in a text column and
+    the handler that undoes the effects) end, after any history, in exactly the state the atomic model gives: the
+    encoding of the abstract result when accepted, the table as it was when refused (whatever the failed write left
+    in the enlarged region), never a `data.new` left behind; and they are accepted exactly when the abstract
+    operation is.  (Formerly an assumption: "refused up front, same observable outcome".) -/
+theorem C16_rollbacks_restore (f0 : Frame) (hist : List Op) (hc : Created f0) :
+    (∀ rows junk,
+      (fxAppendRows (srun (encFrame f0) hist) rows junk).1 = encFrame (step (run f0 hist) (.appendRows rows)).1 ∧
+      ((fxAppendRows (srun (encFrame f0) hist) rows junk).2 = none ↔ (step (run f0 hist) (.appendRows rows)).2 = none) ∧
+      ((fxAppendRows (srun (encFrame f0) hist) rows junk).2 ≠ none →
+        (fxAppendRows (srun (encFrame f0) hist) rows junk).1 = srun (encFrame f0) hist)) ∧
+    (∀ col index name,
+      (fxWriteColumn (srun (encFrame f0) hist) col index name).1 =
+        encFrame (step (run f0 hist) (.writeColumn col index name)).1 ∧
+      ((fxWriteColumn (srun (encFrame f0) hist) col index name).2 = none ↔
+        (step (run f0 hist) (.writeColumn col index name)).2 = none) ∧
+      ((fxWriteColumn (srun (encFrame f0) hist) col index name).2 ≠ none →
+        (fxWriteColumn (srun (encFrame f0) hist) col index name).1 = srun (encFrame f0) hist)) ∧
+    (∀ col name dt,
+      (fxAppendColumn ⟨srun (encFrame f0) hist, none⟩ col name dt).1.data =
+        encFrame (step (run f0 hist) (.appendColumn col name dt)).1 ∧
+      (fxAppendColumn ⟨srun (encFrame f0) hist, none⟩ col name dt).1.dataNew = none ∧
+      ((fxAppendColumn ⟨srun (encFrame f0) hist, none⟩ col name dt).2 = none ↔
+        (step (run f0 hist) (.appendColumn col name dt)).2 = none) ∧
+      ((fxAppendColumn ⟨srun (encFrame f0) hist, none⟩ col name dt).2 ≠ none →
+        (fxAppendColumn ⟨srun (encFrame f0) hist, none⟩ col name dt).1.data = srun (encFrame f0) hist)) := by
+  have wf := wf_run (created_wf hc) hist
+  have hs := srun_enc (created_wf hc) hist
+  -- a refused abstract step returns the frame unchanged
+  have unchanged : ∀ op, (step (run f0 hist) op).2 ≠ none → (step (run f0 hist) op).1 = run f0 hist := by
+    intro op h
+    cases he : (step (run f0 hist) op).2 with
+    | none => exact absurd he h
+    | some e => exact C16_refused_unchanged f0 hist op e he
+  refine ⟨?_, ?_, ?_⟩
+  · intro rows junk
+    obtain ⟨h1, h2⟩ := fxAppendRows_eq (srun (encFrame f0) hist) rows junk
+    have hstep := sstep_enc wf (.appendRows rows)
+    simp only [sstep] at hstep
+    rw [hs] at h1 h2 ⊢
+    rw [hstep] at h1 h2
+    refine ⟨h1, h2, ?_⟩
+    intro hne
+    rw [h1, unchanged _ (fun h => hne (h2.2 h))]
+  · intro col index name
+    obtain ⟨h1, h2⟩ := fxWriteColumn_eq (srun (encFrame f0) hist) col index name
+    have hstep := sstep_enc wf (.writeColumn col index name)
+    simp only [sstep] at hstep
+    rw [hs] at h1 h2 ⊢
+    rw [hstep] at h1 h2
+    refine ⟨h1, h2, ?_⟩
+    intro hne
+    rw [h1, unchanged _ (fun h => hne (h2.2 h))]
+  · intro col name dt
+    obtain ⟨h1, h2, h3⟩ := fxAppendColumn_eq (srun (encFrame f0) hist) col name dt
+    have hstep := sstep_enc wf (.appendColumn col name dt)
+    simp only [sstep] at hstep
+    rw [hs] at h1 h2 h3 ⊢
+    rw [hstep] at h1 h3
+    refine ⟨h1, h2, h3, ?_⟩
+    intro hne
+    rw [h1, unchanged _ (fun h => hne (h3.2 h))]
+
 /-- **text survives storage**: decoding the stored bytes of any string gives the string back, and the conversion
     of a stored cell of the column's type is that cell — for every string (non-ASCII, empty, any length) -/
 theorem C16_text_roundtrip (s : String) (t : ColType) (v : Val) :
@@ -728,6 +794,13 @@ example : (stepR exFrame (.appendRowsRec ⟨[("a", .i8, 0)], [[.int 3]]⟩)).2 =
 example : getField exFrame "s" = .ok [.str "x", .str "y"] ∧ getSlice exFrame (some (-1)) none = [[.int 2, .str "y"]] ∧
     readColumnsGrouped exFrame (.ok [1, 1]) none none = .ok [[.str "x", .str "y"], [.str "x", .str "y"]] ∧
     getField exFrame "nope" = .error .indexError := ⟨rfl, rfl, rfl, rfl⟩
+/-- a non-string object offered to a text column passes NumPy's stage and is refused by h5py's: the enlarged
+    dataset is shrunk back / the rewritten rows are restored -/
+example : convNp .text (.int 5) = .ok (.int 5) ∧ h5Ok .text (.int 5) = false ∧
+    (fxAppendRows (encFrame exFrame) [[.int 3, .int 5]] []).2 = some .typeError ∧
+    (fxAppendRows (encFrame exFrame) [[.int 3, .int 5]] []).1.rows.length = 2 ∧
+    (fxWriteColumn (encFrame exFrame) [.str "p", .int 5] none (some "s")).2 = some .typeError := by
+  refine ⟨rfl, rfl, rfl, rfl, rfl⟩
 /-- 300 and -1 are refused by a `uint8` column in every spelling -/
 example : conv .u8 (.int 300) = .error .valueError ∧ conv .u8 (.int (-1)) = .error .valueError ∧
     conv .u8 (.int 256) = .error .valueError ∧ conv .u8 (.int 255) = .ok (.int 255) := ⟨rfl, rfl, rfl, rfl⟩
